@@ -221,6 +221,17 @@ class C07(Prop):
             u = rnd.choice(pool + ['Hz'])
             a = rnd.randrange(0, top)
             cases.append(Case('upos %s %s %s %s %s' % (head, du, enc(upick(tab, du, coord(a), u)), u, rnd.choice(RULES)), 'upos'))
+        # ---- the axis the indices must be consistent with: axis(count, start)[i] = x_(start+i), tickAt(i) = tick i
+        for _ in range(20 if quick else 200 * scale):
+            dt = rnd.choice(INTERVALS); off = rnd.choice([None, 0.3, -0.3, 5.0])
+            cnt = rnd.choice([0, 1, 2, 7, 30]); st = rnd.choice([0, 1, 5, 99, 9999, 10 ** 6])
+            cases.append(Case('saxis %s %s %d %d' % (enc(dt), enc(off) if off is not None else '-', cnt, st), 'saxis'))
+            k = rnd.choice([1, 2, 3, 8])
+            t = sorted(set(rnd.uniform(-10, 10) for _ in range(k)))
+            tk = ' '.join(enc(x) for x in t)
+            cnt = rnd.choice([0, 1, len(t), len(t) + 1, 2]); st = rnd.choice([0, 1, len(t) - 1, len(t), len(t) + 1])
+            cases.append(Case('raxis %d %s %d %d' % (len(t), tk, cnt, max(st, 0)), 'raxis'))
+            cases.append(Case('tickat %d %s %d' % (len(t), tk, rnd.choice([0, len(t) - 1, len(t), len(t) + 3])), 'tickat'))
         # ---- a long-lived handle follows tick changes made through another handle
         for _ in range(12 if quick else 120 * scale):
             k = rnd.choice([1, 2, 3, 5]); k2 = rnd.choice([1, 2, 3, 5, 8])
